@@ -1,14 +1,13 @@
 //! Coverage-guided tier: the same generators and oracles as the proptest campaigns, driven by libFuzzer.
 //!
-//! The fuzzer's byte string is used as the random stream of the property's proptest strategy
-//! (`RngAlgorithm::PassThrough`), so every input decodes into a structurally valid case and libFuzzer's
-//! coverage feedback (the instrumented gneiss-mqtt code) steers the search over cases.  A violation is
+//! The fuzzer's byte string is decoded into a structurally valid case by the property's `fuzz_case` (a byte-driven
+//! twin of its proptest generator, see `bytegen.rs`; for C03 the bytes are the server's byte stream itself), and
+//! libFuzzer's coverage feedback (the instrumented gneiss-mqtt code) steers the search over cases.  A violation is
 //! written as the same JSON replay file the proptest campaigns write, so `./check Cxx --replay <file>`
 //! reproduces it without libFuzzer.
 
 use crate::runner::{classify, load_known_findings, write_replay, CaseReport, KnownFinding, Property, Stats, Tier};
-use proptest::strategy::{BoxedStrategy, Strategy, ValueTree};
-use proptest::test_runner::{Config, RngAlgorithm, TestRng, TestRunner};
+use proptest::strategy::BoxedStrategy;
 use serde_json::json;
 
 pub trait FuzzOne {
@@ -41,22 +40,31 @@ impl<P: Property> FuzzSession<P> {
     }
 
     fn case_of(&self, data: &[u8]) -> Option<P::Case> {
-        let rng = TestRng::from_seed(RngAlgorithm::PassThrough, data);
-        let mut runner = TestRunner::new_with_rng(Config { failure_persistence: None, max_global_rejects: 4096, max_local_rejects: 4096, ..Config::default() }, rng);
-        self.strategy.new_tree(&mut runner).ok().map(|t| t.current())
+        self.p.fuzz_case(data)
     }
 }
 
 impl<P: Property> FuzzOne for FuzzSession<P> {
     fn one(&mut self, data: &[u8]) -> Option<String> {
-        self.iterations += 1;
         let case = match self.case_of(data) {
             Some(c) => c,
             None => {
+                self.iterations += 1;
                 self.undecodable += 1;
                 return None;
             }
         };
+        self.one_case(case)
+    }
+
+    fn flush(&mut self) {
+        self.flush_stats()
+    }
+}
+
+impl<P: Property> FuzzSession<P> {
+    pub fn one_case(&mut self, case: P::Case) -> Option<String> {
+        self.iterations += 1;
         let report: CaseReport = match std::panic::catch_unwind(std::panic::AssertUnwindSafe(|| self.p.check(&case))) {
             Ok(r) => r,
             Err(_) => {
@@ -73,7 +81,7 @@ impl<P: Property> FuzzOne for FuzzSession<P> {
         }
         self.stats.absorb(&report);
         if self.iterations % 2000 == 0 {
-            self.flush();
+            self.flush_stats();
         }
         if unknown.is_empty() {
             return None;
@@ -83,11 +91,11 @@ impl<P: Property> FuzzOne for FuzzSession<P> {
         }
         let path = write_replay(&self.root, self.p.id(), Tier::Thorough, 0, &case, &unknown, "found by libFuzzer (coverage-guided, proptest strategy over the fuzzer's bytes)");
         println!("VIOLATION property={} replay={}", self.p.id(), path);
-        self.flush();
+        self.flush_stats();
         Some(path)
     }
 
-    fn flush(&mut self) {
+    pub fn flush_stats(&mut self) {
         let doc = json!({
             "property_id": self.p.id(),
             "pid": std::process::id(),
